@@ -1,6 +1,143 @@
-From SV Require Import Base Json Canon Sync SyncObs CorrC13 CorrC14 C13Proofs C14Proofs.
+(* C14 — sync never overwrites conflicts unless told to; failed syncs roll documents back.
+   Statements only; proofs in SV.SyncProofs / SyncDocProofs / SyncIdemProofs / SyncTopProofs / C14Proofs. *)
+From SV Require Import C14Proofs SyncWitness.
 
-Theorem C14_placeholder : forall frepr cf o en src dst,
-  ob_src (model_call frepr cf o en src dst) = src.
-Proof. exact run_sync_src_untouched. Qed.
-Print Assumptions C14_placeholder.
+(* overwrite_iff_strategy — after a successful real run a file that exists on both sides and differs (in the
+   sense of the comparison in force: shallow = (size, mtime) then bytes, deep = bytes), is reachable (top level,
+   or deeper when recursive) and not excluded / ignored by name, holds the source content iff the strategy
+   answered true for (its mtimes and) its path relative to the job *)
+Theorem C14_overwrite_iff_strategy : forall frepr cf p fuel o deep sdir ddir subdir d' s c1 m1 c2 m2,
+  wf_node (Dir sdir) = true -> o_dry_run o = false -> o_strategy o = Some s ->
+  sync_ws frepr cf fuel o deep sdir ddir subdir = (d', None) ->
+  lookup_path p (Dir sdir) = Some (File c1 m1) -> lookup_path p (Dir ddir) = Some (File c2 m2) ->
+  (o_recursive o = true \/ length p = 1%nat) ->
+  forallb (fun k => negb (ignored cf k)) p = true -> excluded cf o (last p []) = false ->
+  file_same frepr deep c1 m1 c2 m2 = false ->
+  lookup_path p (Dir d') = Some (if verdict s (rel subdir p) m1 m2 then File c1 NOW else File c2 m2).
+Proof. exact ws_overwrite_iff. Qed.
+Print Assumptions C14_overwrite_iff_strategy.
+
+(* ... and never otherwise: for EVERY outcome (success, exception half-way, dry run) a file of the destination
+   is either exactly what it was, or all of the above holds and it is now the source file *)
+Theorem C14_overwrite_only_if : forall frepr cf p fuel o deep sdir ddir subdir c2 m2,
+  wf_node (Dir sdir) = true ->
+  lookup_path p (Dir ddir) = Some (File c2 m2) ->
+  let after := lookup_path p (Dir (fst (sync_ws frepr cf fuel o deep sdir ddir subdir))) in
+  after = Some (File c2 m2)
+  \/ exists c1 m1 s,
+       lookup_path p (Dir sdir) = Some (File c1 m1) /\ o_strategy o = Some s
+       /\ verdict s (rel subdir p) m1 m2 = true /\ excluded cf o (last p []) = false
+       /\ file_same frepr deep c1 m1 c2 m2 = false /\ o_dry_run o = false
+       /\ after = Some (File c1 NOW).
+Proof. exact ws_overwrite_only_if. Qed.
+Print Assumptions C14_overwrite_only_if.
+
+(* the verdicts of the three stock strategies *)
+Theorem C14_stock_strategies : forall rel ms md,
+  verdict FS_always rel ms md = true /\ verdict FS_never rel ms md = false
+  /\ (verdict FS_update rel ms md = true <-> (ms > md)%Z).
+Proof. intros. simpl. repeat split; try (intro H; apply Z.gtb_lt in H; lia). intro H. apply Z.gtb_lt. lia. Qed.
+Print Assumptions C14_stock_strategies.
+
+(* no_strategy_conflict — strategy=None: (a) whatever happens, every file of the destination keeps its content
+   and mtime; (b) a differing, non-excluded, non-ignored file at the level being walked makes a real run raise
+   FileSyncConflict *)
+Theorem C14_no_strategy_conflict_untouched : forall frepr cf p fuel o deep sdir ddir subdir c m,
+  wf_node (Dir sdir) = true -> o_strategy o = None ->
+  lookup_path p (Dir ddir) = Some (File c m) ->
+  lookup_path p (Dir (fst (sync_ws frepr cf fuel o deep sdir ddir subdir))) = Some (File c m).
+Proof. exact ws_no_strategy_files_kept. Qed.
+Print Assumptions C14_no_strategy_conflict_untouched.
+
+Theorem C14_no_strategy_conflict_raises : forall frepr cf fuel o deep sdir ddir subdir n c1 m1 c2 m2,
+  o_dry_run o = false -> o_strategy o = None ->
+  alookup n sdir = Some (File c1 m1) -> alookup n ddir = Some (File c2 m2) ->
+  ignored cf n = false -> excluded cf o n = false -> file_same frepr deep c1 m1 c2 m2 = false ->
+  snd (sync_ws frepr cf (S fuel) o deep sdir ddir subdir) = Some EFileSyncConflict.
+Proof. exact ws_no_strategy_raises. Qed.
+Print Assumptions C14_no_strategy_conflict_raises.
+
+(* bykey_overwrite_only_selected — FULL statement: for every source / destination document, prefix, dry or
+   real, any outcome: a key whose values differ and are not both mappings keeps its value unless the key
+   strategy selects its full dotted name (CorrC14.only_selected).  It holds for the repaired recursion ... *)
+Theorem C14_bykey_overwrite_only_selected : forall cf ks, fix_root cf = true ->
+  forall sv, wf sv = true -> forall dv root dry sk,
+    only_selected ks root sv dv (fst (fst (bykey cf ks sv dv root dry sk))) = true.
+Proof. exact bykey_only_selected. Qed.
+Print Assumptions C14_bykey_overwrite_only_selected.
+
+(* ... for /repo as it is (any switches) it is proved for source documents nested at most two levels deep;
+   missing: depth >= 3, where ByKey passes key + "." instead of root + key + "." *)
+Theorem C14_bykey_overwrite_only_selected_partial : forall cf ks sv, wf sv = true -> nest_le2 sv = true ->
+  forall dv dry sk, only_selected ks [] sv dv (fst (fst (bykey cf ks sv dv [] dry sk))) = true.
+Proof. exact bykey_only_selected_le2. Qed.
+Print Assumptions C14_bykey_overwrite_only_selected_partial.
+
+(* ... and it is false at depth 3: {"a":{"b":{"c":1}}} into {"a":{"b":{"c":2}}} with a key strategy that
+   accepts only "b.c" overwrites a.b.c (corpus/C14/w1, replayed on the real code in every run) *)
+Theorem C14_bykey_overwrite_only_selected_refuted :
+  exists i, docs_ok nofl i (c_obs (model_case nofl cfg_current i)) = false
+            /\ docs_ok nofl i (c_obs (model_case nofl cfg_fixed i)) = true.
+Proof. exists wit_C14_w1. exact w1_C14_facts. Qed.
+Print Assumptions C14_bykey_overwrite_only_selected_refuted.
+
+(* update_overwrites_all *)
+Theorem C14_update_overwrites_all : forall sdoc ddoc k v, NoDup (map fst sdoc) -> In (k, v) sdoc ->
+  alookup k (ds_update sdoc ddoc false) = Some v.
+Proof. exact update_overwrites_all. Qed.
+Print Assumptions C14_update_overwrites_all.
+
+(* no_sync_touches_nothing — NO_SYNC: the document file of the destination job is not touched by sync_jobs
+   (neither by the document path nor by the file walk), whatever the outcome *)
+Theorem C14_no_sync_touches_nothing : forall frepr cf o deep fp sdir ddir dsp d' e,
+  o_docsync o = DS_nosync ->
+  (forall es, alookup FN_DOC ddir <> Some (Dir es)) ->
+  sync_jobs_m frepr cf o deep fp (Some sdir) (Some ddir) dsp = (Some d', e) ->
+  alookup FN_DOC d' = alookup FN_DOC ddir.
+Proof. exact no_sync_touches_nothing. Qed.
+Print Assumptions C14_no_sync_touches_nothing.
+
+(* doc_conflict_rollback_exact — when the document synchronisation of a real run raises (DocumentSyncConflict,
+   or the TypeError of a mixed-type conflict, or the refusal to overwrite an existing backup) the directory is
+   EQUAL to what it was: the document has its old content and mtime, and no "~" file remains.  Both backup
+   paths of create_doc_backup are covered: the in-memory one is shown never to see an exception *)
+Theorem C14_doc_conflict_rollback_exact : forall cf o fn sdir ddir d' e,
+  o_dry_run o = false -> NoDup (map fst (read_doc fn sdir)) ->
+  sync_doc cf o fn sdir ddir = (d', Some e) -> d' = ddir.
+Proof. exact sync_doc_rollback_exact. Qed.
+Print Assumptions C14_doc_conflict_rollback_exact.
+
+Theorem C14_inmemory_backup_never_rolls_back : forall cf ds sdoc dry, NoDup (map fst sdoc) ->
+  snd (apply_docsync cf ds sdoc [] dry) = None.
+Proof. exact apply_docsync_empty_ok. Qed.
+Print Assumptions C14_inmemory_backup_never_rolls_back.
+
+(* the document synchronisation touches nothing but the document file and its backup name *)
+Theorem C14_doc_sync_frame : forall cf o fn sdir ddir k, k <> fn -> k <> backup_name fn ->
+  alookup k (fst (sync_doc cf o fn sdir ddir)) = alookup k ddir.
+Proof. exact sync_doc_frame. Qed.
+Print Assumptions C14_doc_sync_frame.
+
+(* licence for the correspondence: the per-file clause of the oracle (CorrC14.conflict_ok: the content
+   after the call is the one the strategy chose, the strategy being asked about the '/'-joined relative path)
+   holds for what the model computes *)
+Theorem C14_model_holds : forall frepr cf k p fuel o deep sdir ddir d' s c1 m1 c2 m2,
+  k <> [] ->
+  wf_node (Dir sdir) = true -> o_dry_run o = false -> o_strategy o = Some s ->
+  sync_ws frepr cf fuel o deep sdir ddir [] = (d', None) ->
+  file_at (k :: p) sdir = Some (c1, m1) -> file_at (k :: p) ddir = Some (c2, m2) ->
+  (o_recursive o = true \/ length (k :: p) = 1%nat) ->
+  forallb (fun n => negb (ignored cf n)) (k :: p) = true -> excluded cf o (last (k :: p) []) = false ->
+  file_same frepr deep c1 m1 c2 m2 = false ->
+  is_content frepr (if verdict s (path_str (k :: p)) m1 m2 then c1 else c2) (file_at (k :: p) d') = true.
+Proof. exact model_holds_C14. Qed.
+Print Assumptions C14_model_holds.
+
+(* non-vacuity: a conflicting pair on which the model overwrites exactly the selected file and rolls a
+   conflicting document back (corpus/C14 witnesses w2 / w1 under the repaired configuration) *)
+Example C14_example :
+  holds_C14 nofl (model_case nofl cfg_fixed wit_C14_w1) = true
+  /\ ob_exn (c_obs (model_case nofl cfg_fixed wit_C14_w1)) = None
+  /\ wf (JObj [([97%N], JObj [([98%N], JObj [([99%N], JInt 1)])])]) = true
+  /\ nest_le2 (JObj [([97%N], JObj [([98%N], JInt 1)])]) = true.
+Proof. vm_compute. repeat split. Qed.
